@@ -15,7 +15,9 @@ EXPLANATION = (
     "branch refinement, iterator ranges, range-argument ordering, callee preconditions on buffer parameters checked at "
     "call sites), or be listed in tables/c07_sites.json with a reviewed reason (TABLE-SAFE) or in KNOWN_FINDINGS.txt. A new "
     "site, or a site that stops being provable (e.g. a weakened length check), is a violation. Decides absence of panics at "
-    "these sites for all inputs relative to the library model; hangs and allocation size are not decided; panics inside "
+    "these sites for all inputs relative to the library model. R07.2 (termination): every loop of the listed decoder / handler "
+    "functions that is not an iterator or event loop makes progress on every trip (cursor consumption, provably positive step "
+    "of a position variable, shrinking collection), else it is in the table with a reason. Allocation size is not decided; panics inside "
     "dependencies are not decided; calls through trait objects and work handed to other tasks through channels are not "
     "followed by the closure.")
 ASSUMPTIONS = [
@@ -319,5 +321,83 @@ def r07_1(ctx):
     return r
 
 
+SHRINK_CALLS = ("::pop_front", "::pop_back", "::pop", "::pop_first", "::pop_last", "::remove", "::swap_remove", "::drain", "::next", "::next_back",
+                "::take", "::recv", "::try_recv", "::split_off", "::truncate")
+
+
+def r07_2(ctx):
+    """termination of the decoder loops (the 'no unbounded loop' clause): every loop of a network-facing decoder /
+    handler that is not an iterator loop or an event loop must make progress on every trip - it consumes from a
+    cursor, advances its position variable by a provably positive amount (engine/lenana.py lower bounds, so a
+    `len` taken from the wire counts only where a guard makes it >= 1), or shrinks a collection. Reported: a cycle
+    through the loop that passes none of these. Decides 'each trip advances', which with a finite input bounds the
+    trips; it does not bound the work per trip."""
+    r = RuleResult("R07.2", "K4+lenana", "every decoder loop makes progress on every trip")
+    table = load_table()
+    n = 0
+    examined = 0
+    for b in ctx.facts.all_bodies():
+        if not in_scope(b.name) or "_serde::" in b.name:
+            continue          # (derive-generated serde visitors are not reachable from the network)
+        loops = b.loops()
+        if not loops:
+            continue
+        await_hdrs = {hdr for (src, hdr) in b.back_edges() if b.blocks[src]["t"]["sp"]["x"] == "d:Await"}
+        cand = []
+        for h, blocks in loops:
+            if h in await_hdrs:
+                continue
+            if any(b.blocks[x]["t"]["k"] == "yield" for x in blocks):
+                continue          # event loop of a task: waits for input, not a parser loop
+            cand.append((h, blocks))
+        if not cand:
+            continue
+        an = lenana.Analyzer(b)
+        try:
+            an.run()
+        except Exception:
+            pass
+        prog = dict(an.progress)
+        for bi, t, p in b.calls():
+            if p and p.endswith(SHRINK_CALLS) and bi not in prog:
+                prog[bi] = "call %s" % p.split("::")[-1]
+        ordn = {}
+        for h, blocks in cand:
+            examined += 1
+            inner = set(blocks)
+            # a trip = a path from the header back to the header inside the loop
+            succs = [t for t, _ in b.succ_edges(h) if t in inner]
+            cutb = {x for x in prog if x in inner and x != h}
+            trip = None
+            if h not in prog:
+                for s0 in succs:
+                    if s0 in cutb:
+                        continue
+                    q = b.path_to([s0], h, cut_blocks=cutb | (set(range(len(b.blocks))) - inner))
+                    if q is not None:
+                        trip = [h] + q
+                        break
+            src = " ".join((b.blocks[h]["t"].get("src") or "").split())[:60]
+            base = "loop@%s" % (b.where(h).split(":")[-1] if False else src or "header")
+            o = ordn.get(base, 0)
+            ordn[base] = o + 1
+            key = "%s|loop|%s|%d" % (b.name, base, o)
+            if trip is None:
+                n += 1
+                r.ok({"loop": b.where(h), "function": b.name, "progress": sorted(set(prog[x] for x in cutb))[:3]} if n <= 25 else None)
+            elif key in table:
+                n += 1
+                r.ok(None)
+            else:
+                r.obligations += 1
+                r.violations.append(core.Violation("R07.2", b.name, "loop|%s" % base, b.where(h),
+                                                   "a trip through this loop can make no progress (no cursor consumption, no provably positive "
+                                                   "step of a position variable, no shrinking collection): a crafted input can keep it spinning",
+                                                   o, core.describe_path(b, trip)))
+    r.samples = [x for x in r.samples if x]
+    r.need("decoder loops examined", examined, 30)
+    return r
+
+
 def run(ctx):
-    return [r07_1(ctx)]
+    return [r07_1(ctx), r07_2(ctx)]
